@@ -215,3 +215,11 @@ def run(ctx):
     o = it.origin_place({"l": 0, "p": []}, rb, len(it.blocks[rb]["stmts"]))
     ok = o[0] == "agg" and T.is_field(dict(zip(o[5], o[4])).get("long_data"), "long_data") and T.is_param(dict(zip(o[5], o[4])).get("long_data")[1], 1)
     ctx.ob("C17.isolation", ok, "the parameter iterator does not carry over the parser's long_data reference", fn=it.path, construct="borrow")
+
+    # `never to another statement`: long data lives in the per-statement entry, so the life cycle of that entry (created fresh
+    # by the PREPARE reply only, removed by CLOSE only, looked up before use) is part of this property: C10's rules run here too
+    if not getattr(ctx, "_c10_in_c17", False):
+        ctx._c10_in_c17 = True
+        import rules.C10 as C10
+        C10.run(ctx)
+
